@@ -139,7 +139,24 @@ func ruleR10b(h *H) {
 				return false
 			}
 			f := c.Call.StaticCallee()
-			return f != nil && ir.RelPkg(ir.PkgPathOf(f)) == "server/util/crc" || (f != nil && f.Pkg != nil && f.Pkg.Pkg.Path() == "hash/crc32")
+			if f == nil {
+				return false
+			}
+			isCrc := func(g *ssa.Function) bool {
+				return g != nil && (ir.RelPkg(ir.PkgPathOf(g)) == "server/util/crc" || (g.Pkg != nil && g.Pkg.Pkg.Path() == "hash/crc32"))
+			}
+			if isCrc(f) {
+				return true
+			}
+			// an extracted checksum helper of the codec: returns an integer and (statically) reaches the crc package
+			if ir.InRepo(f) && f.Blocks != nil && f.Signature.Results().Len() == 1 {
+				if b, isB := f.Signature.Results().At(0).Type().Underlying().(*types.Basic); isB && b.Info()&types.IsInteger != 0 {
+					if r, _ := h.P.StaticReaches(f, func(cc *ssa.CallCommon) bool { return isCrc(cc.StaticCallee()) }); r {
+						return true
+					}
+				}
+			}
+			return false
 		})
 	}
 	for _, fn := range h.P.Funcs {
